@@ -26,6 +26,8 @@ type CaseInfo struct {
 	NeededAsync bool       `json:"needed_async"`
 	Provs       []ProvInfo `json:"provs"`
 	Goroutines  int        `json:"goroutines"`
+	// POR: explore this case with partial-order reduction (large shapes)
+	POR bool `json:"por,omitempty"`
 }
 
 // Obs is one deduplicated observation (candidate violation) with a witness schedule.
@@ -72,6 +74,14 @@ type Result struct {
 	CoEnabled   bool     `json:"co_enabled"` // some state had two threads enabled
 	Unsupported string   `json:"unsupported,omitempty"`
 	WallMs      int64    `json:"wall_ms"`
+	// POR: explored with dynamic partial-order reduction (States = states visited along the explored
+	// interleavings, one or more per Mazurkiewicz trace; SleepBlocked = executions cut by sleep sets).
+	POR          bool `json:"por,omitempty"`
+	SleepBlocked int  `json:"sleep_blocked,omitempty"`
+	// filled by -por=both: disagreement between the two explorers ("" = they agree), and the reduced run's size
+	PORDiff   string `json:"por_diff,omitempty"`
+	PORExecs  int    `json:"por_execs,omitempty"`
+	PORStates int    `json:"por_states,omitempty"`
 }
 
 // Trace is the provider-level projection of one complete execution with its outcome.
